@@ -50,6 +50,10 @@ pub enum FEv {
     Close(usize),
     /// Let this much virtual time pass.
     Advance(u64),
+    /// Several things that happen before the client gets to run (simultaneous arrivals).
+    Batch(Vec<FEv>),
+    /// Hand the oldest held-back manager broadcast to peer i's connection task (gated worlds).
+    Release(usize),
 }
 
 pub struct FullWorld {
@@ -85,6 +89,11 @@ pub fn tracker_body(peers: &[&PeerCfg]) -> Vec<u8> {
 
 impl FullWorld {
     pub fn new(t: &Torrent, peer_cfgs: &[PeerCfg], script: Vec<TrackerOutcome>, default: TrackerOutcome, dir: &PathBuf) -> FullWorld {
+        Self::new_gated(t, peer_cfgs, script, default, dir, false)
+    }
+
+    pub fn new_gated(t: &Torrent, peer_cfgs: &[PeerCfg], script: Vec<TrackerOutcome>, default: TrackerOutcome, dir: &PathBuf, gated: bool) -> FullWorld {
+        rdest::verif::set_gating(gated);
         core::wipe_dir(dir);
         rdest::verif::clear_snapshots();
         rdest::verif::set_choices(vec![]);
@@ -170,19 +179,30 @@ impl FullWorld {
             return;
         }
         self.steps += 1;
+        let mut inputs: Vec<&FEv> = vec![];
         match ev {
-            Some(FEv::Feed(i, bytes)) => {
-                if let Some(c) = self.peers[*i].conn.as_ref() {
-                    c.pipe.feed(bytes);
+            Some(FEv::Batch(list)) => inputs.extend(list.iter()),
+            Some(other) => inputs.push(other),
+            None => {}
+        }
+        for e in inputs {
+            match e {
+                FEv::Feed(i, bytes) => {
+                    if let Some(c) = self.peers[*i].conn.as_ref() {
+                        c.pipe.feed(bytes);
+                    }
                 }
-            }
-            Some(FEv::Close(i)) => {
-                if let Some(c) = self.peers[*i].conn.as_mut() {
-                    c.pipe.close();
-                    c.closed_by_peer = true;
+                FEv::Close(i) => {
+                    if let Some(c) = self.peers[*i].conn.as_mut() {
+                        c.pipe.close();
+                        c.closed_by_peer = true;
+                    }
                 }
+                FEv::Release(i) => {
+                    rdest::verif::gate_release(&self.peers[*i].cfg.addr);
+                }
+                _ => {}
             }
-            _ => {}
         }
         let FullWorld { rt, local, .. } = self;
         let res = core::catch(|| {
@@ -206,10 +226,14 @@ impl FullWorld {
         if let Some(p) = core::take_last_panic() {
             self.panics.push(p);
         }
+        rdest::verif::gates_pump();
         // new connections
         let fresh: Vec<(String, MemPipe)> = self.new_conns.borrow_mut().drain(..).collect();
         for (addr, pipe) in fresh {
-            if let Some(p) = self.peers.iter_mut().find(|p| p.cfg.addr == addr) {
+            // several scripted peers may share an address (a peer that restarted with a new id):
+            // the connection goes to the first of them that has none yet, else to the first
+            let idx = self.peers.iter().position(|p| p.cfg.addr == addr && p.conn.is_none()).or_else(|| self.peers.iter().position(|p| p.cfg.addr == addr));
+            if let Some(p) = idx.map(|i| &mut self.peers[i]) {
                 p.connects += 1;
                 p.conn = Some(Conn { pipe, msgs: vec![], new_from: 0, writes_seen: 0, closed_by_peer: false });
             }
@@ -260,6 +284,11 @@ impl FullWorld {
         }
     }
 
+    /// Manager broadcasts held back for peer i's connection task.
+    pub fn pending(&self, i: usize) -> Vec<String> {
+        rdest::verif::gate_pending(&self.peers[i].cfg.addr).iter().map(crate::world::short_broad).collect()
+    }
+
     /// Is the manager still listing this peer (i.e. the connection is live from its point of view)?
     pub fn listed(&self, i: usize) -> bool {
         self.snap().map(|s| s.peers.iter().any(|p| p.addr == self.peers[i].cfg.addr)).unwrap_or(false)
@@ -285,5 +314,6 @@ impl Drop for FullWorld {
         self.session_task.abort();
         rdest::verif::set_http(None);
         rdest::verif::set_net(None);
+        rdest::verif::set_gating(false);
     }
 }
